@@ -35,14 +35,22 @@ for i in range(1, 21):
     base = open('/tmp/seed/%s.prompt8.txt' % p).read()
     places = []
     for d in sorted(glob.glob('/verif/seeded/%s-*/patch.diff' % p)):
-        cur, funcs = None, []
+        cur, funcs, fn = None, [], ''
         for l in open(d, errors='replace'):
             if l.startswith('+++ b/'):
                 if cur: places.append('%s [%s]' % (cur, '; '.join(funcs)))
-                cur, funcs = l[6:].strip(), []
+                cur, funcs, fn = l[6:].strip(), [], ''
+            elif l.startswith('--- '):
+                continue
             elif l.startswith('@@'):
                 m = re.search(r'@@.*@@ (.*)', l)
-                if m and m.group(1).strip() and m.group(1)[:45] not in funcs: funcs.append(m.group(1)[:45])
+                fn = m.group(1).strip()[:60] if m else ''
+            elif cur and l[:1] in ' +-':
+                body = l[1:]
+                if body.startswith('func '):
+                    fn = body.strip()[:60]      # the function the following lines belong to
+                if l[:1] in '+-' and body.strip() and not body.strip().startswith('//') and fn and fn not in funcs:
+                    funcs.append(fn)
         if cur: places.append('%s [%s]' % (cur, '; '.join(funcs)))
     imp = ("IMPORTANT - this is a %s round. Earlier exercises already produced changes in these places: %s. Your change must be in a "
            "function none of them touched and use a mechanism none of them used. %s" % (ordinal, ' | '.join(places), STEER))
